@@ -121,6 +121,14 @@ func builtinPrograms() []*Program {
 				"    info.hex = \"00ff00\"",
 				"    info.alias = \"vert\"",
 				"  }",
+				"  option BLUE {",
+				"    | keys that differ by case, by an underscore, by a digit",
+				"    info.ui = \"lower\"",
+				"    info.UI = \"upper\"",
+				"    info.Ui = \"mixed\"",
+				"    info.ui_2 = \"two\"",
+				"    info.ui2 = \"2\"",
+				"  }",
 				"}",
 				"",
 				"object Thing {",
@@ -756,6 +764,48 @@ func builtinPrograms() []*Program {
 			"foo/v1/foo.j5s":   j5s("package foo.v1", "", "object Foo {", "  field thing object:ext.v1.Thing", "}"),
 			"bar/v1/bar.j5s":   j5s("package bar.v1", "import ext.v1", "", "object Bar {", "  field thing object:ext.v1.Thing", "}"),
 			"both/v1/both.j5s": j5s("package both.v1", "import bar.v1", "", "object Both {", "  field bar object:bar.v1.Bar", "}"),
+		},
+	})
+
+	// 23. MANY dependency files: a dependency package of 300 small files, each imported (by path)
+	// by one of two local hand-written protos, three of them by both: where a bounded cache starts
+	// to evict and a batch limit is crossed.
+	var manyDeps []*descriptorpb.FileDescriptorProto
+	var imps1, imps2, flds1, flds2 []string
+	for i := 0; i < 300; i++ {
+		path := fmt.Sprintf("bulkdep/v1/t%03d.proto", i)
+		manyDeps = append(manyDeps, mkMsg(path, "bulkdep.v1", nil, fmt.Sprintf("T%03d", i)))
+		shared := i == 8 || i == 78 || i == 148 // imported by both local files
+		if i%2 == 0 {
+			imps1 = append(imps1, fmt.Sprintf(`import "%s";`, path))
+			flds1 = append(flds1, fmt.Sprintf("  bulkdep.v1.T%03d f%d = %d;", i, i, i+1))
+		}
+		if i%2 == 1 || shared {
+			imps2 = append(imps2, fmt.Sprintf(`import "%s";`, path))
+			flds2 = append(flds2, fmt.Sprintf("  bulkdep.v1.T%03d f%d = %d;", i, i, i+1))
+		}
+	}
+	out = append(out, &Program{
+		Name:     "builtin/many_dependency_files",
+		Packages: []string{"wide.v1"},
+		Deps:     manyDeps,
+		Files: map[string]string{
+			"wide/v1/even.proto": pf("wide.v1", imps1, append(append([]string{"message Even {"}, flds1...), "}")...),
+			"wide/v1/odd.proto":  pf("wide.v1", append(imps2, `import "wide/v1/even.proto";`), append(append([]string{"message Odd {"}, flds2...), "  Even even = 999;", "}")...),
+			"wide/v1/user.j5s":   j5s("package wide.v1", "", "object User {", "  field even object:Even", "  field odd object:Odd", "}"),
+		},
+	})
+
+	// 24. more packages that are invalid on purpose and must fail in every history: a bare type name
+	// that only exists in two imported packages, and a type that exists nowhere.
+	out = append(out, &Program{
+		Name:     "builtin/invalid_references",
+		Packages: []string{"money.v1", "nowhere.v1", "shop.v1", "tax.v1"},
+		Files: map[string]string{
+			"money/v1/money.j5s":     j5s("package money.v1", "", "object Amount {", "  field units integer:INT64", "}"),
+			"tax/v1/tax.j5s":         j5s("package tax.v1", "", "object Amount {", "  field rate string", "}"),
+			"shop/v1/shop.j5s":       j5s("package shop.v1", "import money.v1", "import tax.v1", "", "object Order {", "  field total object:Amount", "  field net object:money.v1.Amount", "  field tax object:tax.v1.Amount", "}"),
+			"nowhere/v1/nowhere.j5s": j5s("package nowhere.v1", "import money.v1", "", "object Lost {", "  field what object:money.v1.Missing", "}"),
 		},
 	})
 	return out
